@@ -42,7 +42,26 @@ class Delta(Command):
     output = params.StringParameter()
     def execute(self, **kw): return "other.Delta"
 ''',
-    "upkg/__init__.py": "",
+    "upkg/__init__.py": '''
+from mpilot import params
+from mpilot.commands import Command
+class PkgTop(Command):
+    output = params.StringParameter()
+    def execute(self, **kw): return "upkg.PkgTop"
+''',
+    "usub.py": '''
+from mpilot.libraries.eems.basic import Sum as BuiltinSum
+class Sum(BuiltinSum):
+    """A library that extends a built-in command under the same name."""
+    inputs = dict(BuiltinSum.inputs)
+    output = BuiltinSum.output
+    def execute(self, **kw): return "usub.Sum"
+''',
+    "updup/c.py": '''
+from updup.a import Shared as SharedA
+class Shared(SharedA):
+    def execute(self, **kw): return "updup.c.Shared"
+''',
     "upkg/one.py": '''
 from mpilot import params
 from mpilot.commands import Command
@@ -128,7 +147,7 @@ def describe(libs):
     lib = {}
     for name, cls in sorted(p.command_library.items()):
         entry = {"module": cls.__module__}
-        if cls.__module__.split(".")[0] in ("ulib", "ulib_extra", "ulibx", "other", "upkg", "upkg_more", "upkg_one", "upkgzone", "updup", "__main__"):
+        if cls.__module__.split(".")[0] in ("ulib", "ulib_extra", "ulibx", "other", "upkg", "upkg_more", "upkg_one", "upkgzone", "updup", "__main__", "usub"):
             try:
                 p.add_command(cls, "probe_" + name, {})
                 entry["behaviour"] = p.commands["probe_" + name].result
